@@ -101,6 +101,15 @@ fn cases(rep: &mut Report, rng: &mut Rng, n: usize, big: Option<(&EGraph, usize,
         let nsteps = 3 + rng.below(8);
         let mut steps = vec![];
         for _ in 0..(3 + rng.below(4)) { steps.push(Step::Add(gen_cont(rng))); }
+        if big.is_some() && ci % 2 == 0 {
+            // chained collapses: singleton / pair containers over every element in both creation orders, then a chain of
+            // unions in which the representative of the growing class changes — the merged container must be rewritten
+            // again through the reverse index (contained id -> containers) at each link of the chain
+            let mut order: Vec<usize> = (0..4).collect(); for i in (1..4).rev() { order.swap(i, rng.below(i + 1)); }
+            for &x in &order { steps.push(Step::Add(match rng.below(3) { 0 => Cont::Vec(vec![x]), 1 => Cont::Set(vec![x]), _ => Cont::MSet(vec![x, x]) })); steps.push(Step::Add(Cont::Vec(vec![x]))); }
+            let mut chain: Vec<usize> = (0..4).collect(); for i in (1..4).rev() { chain.swap(i, rng.below(i + 1)); }
+            for w in chain.windows(2) { steps.push(Step::Union(w[0], w[1])); if rng.chance(1, 3) { steps.push(Step::Run); } }
+        }
         for _ in 0..nsteps { steps.push(match rng.below(10) { 0..=2 => Step::Add(gen_cont(rng)), 3..=7 => Step::Union(rng.below(4), rng.below(4)), _ => Step::Run }); }
         steps.push(Step::Run);
         rep.evaluations += 1;
